@@ -23,9 +23,9 @@ MIX = [
     ('events', 'none', 0.12),
 ]
 # the real-client workload (DMRG under a threaded cache / DMRGThreadPlusHC) costs ~1-3 s per run: fixed counts
-CLIENT_RUNS = {'quick': {'none': 48, 'stall': 24, 'io': 24}, 'thorough': {'none': 1200, 'stall': 500, 'io': 500}}
+CLIENT_RUNS = {'quick': {'none': 36, 'stall': 18, 'io': 18}, 'thorough': {'none': 1200, 'stall': 500, 'io': 500}}
 CLIENT_CHUNK = 3
-BUDGET = {'quick': 160000, 'thorough': 4000000}
+BUDGET = {'quick': 130000, 'thorough': 4000000}
 WALL_CAP = {'quick': 100.0, 'thorough': 1500.0}
 CHUNK = 400
 SET_ORDER_OPS = {'clear', 'items', 'popitem', 'values'}  # their effect order follows set iteration order (PYTHONHASHSEED)
